@@ -106,12 +106,21 @@ def worker_main(argv):
     mod = load_check(cid)
     with open(fin) as f:
         cases = json.load(f)
+    done = 0
     with open(fout, "a") as out:
         for i, case in cases:
             res = run_one(mod, case)
             res["i"] = i
             out.write(json.dumps(jsonable(res)) + "\n")
             out.flush()
+            done += 1
+            if done % 6 == 0 and "jax" in sys.modules:
+                # every jit-compiled kernel keeps its executable mapped; long chunks otherwise end in
+                # "LLVM compilation error: Cannot allocate memory" (an inconclusive worker death, not a verdict)
+                try:
+                    sys.modules["jax"].clear_caches()
+                except Exception:  # noqa: BLE001
+                    pass
 
 
 # ------------------------------------------------------------------ parent side
